@@ -29,11 +29,14 @@ void __wrap_xrl_set_error_literal(xrl_error **err, xrl_error_code code, const ch
   __atomic_add_fetch(&W_sets, 1, __ATOMIC_RELAXED); if (!err) __atomic_add_fetch(&W_sets_null, 1, __ATOMIC_RELAXED); if (err && *err) __atomic_add_fetch(&W_over, 1, __ATOMIC_RELAXED);
   __real_xrl_set_error_literal(err, code, msg);
 }
+/* the variadic setter is forwarded untouched (gcc's __builtin_apply re-issues the call with the caller's registers and stack arguments),
+ * so the library's own formatting path -- xrl_error_new_valist / xrl_strdup_vprintf -- is what every harness executes */
+void __real_xrl_set_error(xrl_error **, xrl_error_code, const char *, ...);
 void __wrap_xrl_set_error(xrl_error **err, xrl_error_code code, const char *fmt, ...) {
-  char *buf = NULL; va_list ap; va_start(ap, fmt); int r = __real_vasprintf(&buf, fmt, ap); va_end(ap);
+  void *args = __builtin_apply_args();
   __atomic_add_fetch(&W_sets, 1, __ATOMIC_RELAXED); if (!err) __atomic_add_fetch(&W_sets_null, 1, __ATOMIC_RELAXED); if (err && *err) __atomic_add_fetch(&W_over, 1, __ATOMIC_RELAXED);
-  __real_xrl_set_error_literal(err, code, r >= 0 ? buf : "");
-  __real_free(buf);
+  (void)code; (void)fmt;
+  __builtin_apply((void (*)())__real_xrl_set_error, args, 256);
 }
 void __wrap_xrl_propagate_error(xrl_error **dest, xrl_error *src) {
   if (dest && *dest) __atomic_add_fetch(&W_over, 1, __ATOMIC_RELAXED);
